@@ -76,6 +76,18 @@ CHECKS = {
             "A socket.socket subclass overriding recv is an admissible socket; a loop that neither yields nor polls "
             "would only be seen by the runner's watchdog (reported inconclusive).",
             "DESIGN.md 3/C10"),
+    "C02": ("exploration",
+            "Hypothesis-generated packet sequences framed through six source kinds with harness-owned read sizes and "
+            "recv fragmentations (scripted socket), compared byte-for-byte with the generated packets (round trip)",
+            "Generated sequences (incl. maximum-size packets, prefix bytes that look like headers, cut points biased "
+            "into headers and onto packet boundaries) and fixed streams beyond the 20 MB trim threshold are framed from "
+            "bytes, BytesIO, a real file, a short-reading file object, a scripted socket and (thorough) a real "
+            "socketpair at many read sizes; yielded items must equal the packets exactly and sized sources must stop "
+            "after the last one. Sampled; the schedule is owned by the harness, so every fragmentation is reachable "
+            "and replayable.",
+            "A socket.socket subclass overriding recv is an admissible socket; real kernel sockets (thorough only) have "
+            "uncontrolled timing but the oracle does not depend on it.",
+            "DESIGN.md 3/C02"),
 }
 
 PENDING_REASON = "check not built yet in this round (planned, see DESIGN.md section 3); nothing is claimed for it"
